@@ -15,7 +15,7 @@ import (
 
 func init() {
 	suites["aside"] = suite{
-		rule: "C39: (1) script-level: acquireLock / setkey / delkey on the fake with own, foreign and missing placeholders and values vs the Lean script models; (2) end-to-end episodes: real rueidisaside clients (UseLuaLock on/off, typed client wrapper) over the fake server with client-side caching and invalidation pushes; concurrent Gets (goroutines) of up to three clients on one key with harness-controlled loaders (success, failure, values carrying the placeholder prefix), two live clients releasing the same dead holder's lock with the second release delayed until the first client is loading (`dead-race`, ordered by gates; the release must be the delkey script on the placeholder value, never a plain DEL), a read/finish race (`get-race`: the holder stores its value exactly between a waiter's read of the placeholder and the waiter's next action, ordered by a hook in the fake), Del, key expiry, foreign writes, client death (liveness key expiry) and refresh, context cancellation of parked Gets; after every event the system runs to quiescence and the anonymous state (key kind, loading/parked counts, sorted results, loader count) is compared with the Lean automaton run to quiescence; '!results' oracle lines are judged by the specification (every returned value is a loader output or a stored value and never a placeholder); the harness itself flags two simultaneous loaders, placeholder leaks and lost wake-ups (a Get still parked when the key no longer holds a placeholder); non-trivial = distinct op within its episode prefix",
+		rule: "C39: (1) script-level: acquireLock / setkey / delkey on the fake with own, foreign and missing placeholders and values vs the Lean script models; (2) end-to-end episodes: real rueidisaside clients (UseLuaLock on/off, typed client wrapper) over the fake server with client-side caching and invalidation pushes; concurrent Gets (goroutines) of up to three clients on one key with harness-controlled loaders (success, failure, values carrying the placeholder prefix), two concurrent first Gets of a fresh client with the first liveness-marker SET held back while another client checks the holder's liveness (`fresh-race`), two live clients releasing the same dead holder's lock with the second release delayed until the first client is loading (`dead-race`, ordered by gates; the release must be the delkey script on the placeholder value, never a plain DEL), a read/finish race (`get-race`: the holder stores its value exactly between a waiter's read of the placeholder and the waiter's next action, ordered by a hook in the fake), Del, key expiry, foreign writes, client death (liveness key expiry) and refresh, context cancellation of parked Gets; after every event the system runs to quiescence and the anonymous state (key kind, loading/parked counts, sorted results, loader count) is compared with the Lean automaton run to quiescence; '!results' oracle lines are judged by the specification (every returned value is a loader output or a stored value and never a placeholder); the harness itself flags two simultaneous loaders, placeholder leaks and lost wake-ups (a Get still parked when the key no longer holds a placeholder); non-trivial = distinct op within its episode prefix",
 		run:  runAside,
 		replay: func(c *Ctx, lines []string) {
 			ep := &asEp{}
@@ -56,6 +56,7 @@ type asEp struct {
 	// property's hypothesis (holder alive, lock in place) no longer holds until the loaders are done
 	contested bool
 	stolen    []string
+	stolen2   []string
 	dead      bool
 	deadCl    map[int]bool // clients whose liveness key expired and was not refreshed since: holders by the protocol's definition dead
 }
@@ -158,6 +159,10 @@ func (e *asEp) judge(c *Ctx, line string) {
 		c.Fail("aside:live-placeholder-deleted-by-other-client", line, x)
 	}
 	e.stolen = nil
+	for _, x := range e.stolen2 {
+		c.Fail("aside:placeholder-without-liveness-marker", line, x)
+	}
+	e.stolen2 = nil
 	e.srv.mu.Lock()
 	kv := e.srv.keys[asKey]
 	locked := kv != nil && strings.HasPrefix(kv.s, rueidisaside.PlaceholderPrefix)
@@ -199,10 +204,21 @@ func (e *asEp) op(c *Ctx, line string) {
 		e.lua = len(w) > 1 && w[1] == "lua=1"
 		e.typed = len(w) > 2 && w[2] == "typed=1"
 		e.admin = newFakeClient(e.srv, 99, rueidis.ClientOption{})
-		e.stolen = nil
+		e.stolen, e.stolen2 = nil, nil
 		e.srv.onExec = func(l *logged) {
 			// (under the server mutex) a cache-aside client removed the key while it held the placeholder of
 			// ANOTHER client whose liveness key exists
+			if (l.name == "set" || l.name == "as.acquire") && l.cl != nil && l.cl.id != 99 && len(l.keys) > 0 && l.keys[0] == asKey && len(l.args) > 0 &&
+				strings.HasPrefix(l.args[0], rueidisaside.PlaceholderPrefix) && l.rep.typ == '_' {
+				// the key was locked with placeholder args[0]: its liveness marker must have been SET by this connection before
+				ever := false
+				for _, k := range e.srv.owner[l.cl.id] {
+					ever = ever || k == l.args[0]
+				}
+				if !ever {
+					e.stolen2 = append(e.stolen2, fmt.Sprintf("connection %d locked the key with placeholder %s whose liveness marker has never been set", l.cl.id, l.args[0]))
+				}
+			}
 			if (l.name == "del" || l.name == "as.delkey") && l.cl != nil && l.cl.id != 99 && l.rep.typ == ':' && l.rep.n == 1 &&
 				len(l.keys) > 0 && l.keys[0] == asKey {
 				prev := l.prev
@@ -346,6 +362,36 @@ func (e *asEp) op(c *Ctx, line string) {
 		}
 		armed = false
 		e.srv.afterReply = nil
+		emit()
+	case "fresh-race": // fresh-race a b: client a has never been used. Its first Get (another key) is held at the
+		// gate of its liveness-marker SET; a second Get on a takes the lock of the cache key; a Get on client b then
+		// reads that placeholder and checks the holder's liveness; only then the first marker SET goes through
+		ca, cb := int(w[1][0]-'0'), int(w[2][0]-'0')
+		cca := e.client(ca)
+		fca := e.fcs[ca]
+		gate := make(chan struct{})
+		first := true
+		e.srv.beforeExec = func(cl *fakeClient, cmd []string) {
+			if first && cl == fca && len(cmd) > 1 && strings.ToUpper(cmd[0]) == "SET" && strings.HasPrefix(cmd[1], rueidisaside.PlaceholderPrefix) {
+				first = false
+				<-gate
+			}
+		}
+		sideDone := make(chan struct{})
+		go func() {
+			_, _ = cca.Get(context.Background(), time.Hour, "other-key", func(ctx context.Context, key string) (string, error) { return "side", nil })
+			close(sideDone)
+		}()
+		settle()
+		e.op(c, fmt.Sprintf("get %d", ca))
+		e.op(c, fmt.Sprintf("get %d", cb))
+		close(gate)
+		e.srv.beforeExec = nil
+		select {
+		case <-sideDone:
+		case <-time.After(10 * time.Second):
+		}
+		c.Hit("fresh-race")
 		emit()
 	case "dead-race": // dead-race c1 c2: the key holds the placeholder of a dead client. Gets on c1 and c2 both read it
 		// and the missing liveness key; their releases of the dead lock are held at a gate; c1's goes first (c1 then
@@ -559,6 +605,8 @@ func runAside(c *Ctx) {
 		{"reset lua=0", "put " + hx("stored"), "get 0", "get 1", "del", "get 0", "load-ok " + hx("rueidisid:user"), "load-ok " + hx("ok"), "!results"},
 		{"reset lua=1 typed=1", "get 0", "get 1", "load-ok " + hx("t"), "!results"},
 		{"reset lua=0", "get 0", "get-race 1 " + hx("raced"), "!results", "get 2"},
+		{"reset lua=0", "fresh-race 0 1", "load-ok " + hx("f1"), "!results"},
+		{"reset lua=1", "fresh-race 2 0", "get 1", "load-ok " + hx("f2"), "!results"},
 		{"reset lua=0", "get 0", "death 0", "dead-race 1 2", "load-ok " + hx("a"), "load-ok " + hx("b"), "!results"},
 		{"reset lua=1", "get 0", "death 0", "dead-race 2 1", "load-err", "load-ok " + hx("c"), "load-ok " + hx("d"), "!results"},
 		{"reset lua=1", "get 0", "get 1", "get-race 1 " + hx("r2"), "!results"},
